@@ -25,7 +25,8 @@ Holds == [a : {0, 1, 2}, b : BOOLEAN]
 \* how the storing peers answer writes
 Stores == {"ack", "e301_p1", "maj301", "all302", "all203", "drop_p1", "mixed", "ack1_301rest"}
 NoFault == [kind |-> "none", i |-> 0]
-Faults == [kind : {"drop", "dup", "late", "err"}, i : 0..MaxIdx]
+\* late2: the i-th reply arrives 620 ms after its request and the next one 1250 ms after its own (both after expiry)
+Faults == [kind : {"drop", "dup", "late", "late2", "err"}, i : 0..MaxIdx]
 \* faults and write-answer patterns are not crossed
 StoreFault == {<<st, NoFault>> : st \in Stores} \cup {<<"ack", f>> : f \in Faults}
 ShortOf(q) == {[calls |-> q, gaps |-> g, hold |-> h, store |-> sf[1], fault |-> sf[2], long |-> 0] :
